@@ -132,9 +132,9 @@ func c01Workload(ctx *lib.Ctx, nSkel, total int) {
 			w, root := (*lib.World)(nil), lib.F(nil)
 			if sweep {
 				// 28 siblings: the 25 names of the translator's list and the numbered ones after them
-				// and, for every sixth offset, 60 siblings (beyond every name list) as the operands of one `or`
+				// and, for every twelfth offset, 60 siblings (beyond every name list) as the operands of one `or`
 				nSib, disj := 28, (i-sweepFrom)%2 == 1
-				if (i-sweepFrom)%6 == 0 {
+				if (i-sweepFrom)%12 == 0 {
 					nSib, disj = 60, true
 				}
 				w, root = lib.NewSiblingWorld(r, spec.Base, nSib, i-sweepFrom, sweepKinds, disj)
